@@ -10,6 +10,17 @@ TRUST = "vsim scheduler and hook module; vsim::spec (independent transcription o
 
 # id -> (level category, level text, design ref)
 CLAIMED = {
+ "C01": ("exploration", "Seeded sampling with a deterministic sweep of every message type of all four channels: bytes written by the real endpoints are decoded by an independent spec codec on a wiretap and compared with the issued call; spec-encoded messages from a raw peer must be decoded by the crate to the encoded values; descriptor placement checked by the peer's recvmsg. Weakest fit for the technique (the quantifier has no schedule or fault in it); the simulator contributes the independent peer and segmentation, not a schedule search.", "DESIGN.md 4 C01"),
+ "C02": ("exploration", "Seeded frontend-API sessions against the real backend server with a recording handler (direct and Mutex adapter): exactly-once delivery, argument and open-file identity, handler-before-return ordering by global event sequence numbers, nothing on the wiretap for locally rejected calls; with and without short I/O.", "DESIGN.md 4 C02"),
+ "C03": ("exploration", "As C02 with scripted handler outcomes (values, failures, unusable results, files): the frontend call's return value is compared with the script and the scheduler's deadlock detector decides 'never an indefinite wait' exactly (the system has no timers).", "DESIGN.md 4 C03"),
+ "C04": ("exploration", "Raw spec peer against the real backend server over seeded request histories; the server's byte stream is compared item by item with a reference protocol model (negotiation state, reply/ack/nothing, values, descriptors), in lock-step and pipelined modes, daemon and keep-serving policies.", "DESIGN.md 4 C04"),
+ "C05": ("exploration", "Hostile grammar-aware byte streams with 0..=40 descriptors against the real backend server, plus adversarial well-typed values against a live daemon; panic/overflow detection (overflow checks and debug assertions on) and an independent validity predicate over every handler invocation.", "DESIGN.md 4 C05"),
+ "C06": ("exploration", "Every client call of Frontend / Backend proxy / GpuBackend against a raw peer that mutates the specification's reply and closes; Ok is allowed only under an independent is-reply-for predicate and must return the decoded fields; hostile streams against FrontendReqHandler with a framing-walk oracle.", "DESIGN.md 4 C06"),
+ "C07": ("exploration", "All 2^11 subsets of the gating bits enumerated on both endpoints, crossed with seeded negotiation histories; reference gate table; wiretap and handler log prove refusal without side effect.", "DESIGN.md 4 C07"),
+ "C08": ("fault_enumeration", "Every (request type, 2-split offset) and every (request type, cut offset + close) of the backend server's receive path is enumerated per batch; seeded multi-way segmentation, receiver-side short reads, sender-side partial writes and retry-class errnos beyond; oracle is the reference protocol model plus the handler log.", "DESIGN.md 4 C08"),
+ "C09": ("exploration", "/proc/self/fd conservation over descriptor-heavy hostile workloads (0..=40 descriptors of three kinds, wrong counts, later bytes, beyond the receive limit, teardown after any message) on all receivers; the same epilogue runs after every run of every other check.", "DESIGN.md 4 C09"),
+ "C10": ("exploration", "2-3 caller tasks on clones of one endpoint under random, PCT and sticky schedules with forced preemptions at the send/lock points; the raw peer holds each request, asserts that no other request is queued before it answers, and tags answers by request identity; deadlock detector for 'all calls complete'.", "DESIGN.md 4 C10"),
+ "C18": ("exploration", "Seeded histories through the real Backend proxy against the real FrontendReqHandler with scripted handler results and errno classes, REPLY_ACK on/off; handler log, proxy return values and ack bytes on the wiretap are compared with the reference ack model.", "DESIGN.md 4 C18"),
 }
 
 NA = {
